@@ -166,6 +166,94 @@ reg("C37", "model_checking",
     "TLA+ spec + TLC; state-graph replay plus implementation-driven exhaustive exploration; TLC trace validation and observer", "5/C37")
 
 
+SCHED_TECH = "TLA+ spec + TLC exhaustive model checking; exhaustive schedule exploration of the real code under a virtual loop; TLC trace validation + observer"
+
+reg("C29", "model_checking",
+    "TLC checks Merge.tla (one pending anext task per source, done batches of any subset in any order, erroring source, "
+    "consumer pulling at any time) and Debounce.tla (arrival times vs debounce/max window, simultaneous readiness of an "
+    "item, the window timer and the completion marker) exhaustively; the real functions are explored exhaustively under "
+    "the virtual loop with the done-set order chosen by the schedule; every execution is validated by TLC against "
+    "TraceMerge/TraceDebounce and judged by Obs_C29.",
+    "asyncio.wait wrapped in the harness (a Python set gives either done order); Debouncer clock default pointed at the virtual "
+    "clock; eager outer consumer for debounce; stop_on_first_completion=True, aclose and cancellation not covered; 'initial "
+    "burst' = any split containing at least the items that arrived strictly before the earliest possible window close.",
+    SCHED_TECH, "5/C29")
+reg("C30", "model_checking",
+    "TLC checks RunLimit.tla (per-instance asyncio.Semaphore with the FIFO/hand-off semantics of CPython 3.12, abort of "
+    "queued runs) for N in 1..4, 4-6 runs, 2 instances: limit, accounting, no lost wake-up, clean-up, independence, "
+    "liveness under weak fairness; real Workflow instances on the real BasicRuntime are explored exhaustively under the "
+    "virtual loop; every execution is validated by TLC against TraceRunLimit and judged by Obs_C30.",
+    "Semaphore/runtime internals read for conformance only; verdicts from harness-owned step bodies; hard abort of executing "
+    "runs excluded (outside the quantifier).",
+    SCHED_TECH, "5/C30")
+reg("C22", "model_checking",
+    "TLC checks Resources.tla (ResourceManager state exactly as coded, concurrent step invocations resolving dependency "
+    "graphs of <=3 cached/non-cached sync/async factories including genuine cycles) in a design variant (strict) and a code "
+    "variant (two known shapes carved out); every enumerated program is compiled to a real Workflow and every begin/release "
+    "interleaving is run on the real engine; every execution is validated by TLC against TraceResources (full manager state) "
+    "and judged by Obs_C22 (two verdicts per trace: strict, and with the known shapes skipped).",
+    "Invocations are separate runs of one instance plus the same-event one-run shape; manager internals read for conformance "
+    "only; _ResourceConfig not covered.",
+    SCHED_TECH, "5/C22")
+reg("C17", "model_checking",
+    "TLC checks SseClient.tla (server log, connection as a byte stream of SSE frames cut at six abstract positions, refused "
+    "connects, heartbeats, client cursor/last_sequence/attempts, reconnect from the cursor) for N<=5 events and <=4 faults: "
+    "yielded events are a gap-free, duplicate-free prefix of the log after the cursor, last_sequence = last yielded, failure "
+    "only beyond the reconnect limit, liveness. Environment-action sequences projected from TLC's graph are replayed on the "
+    "real WorkflowClient over httpx.MockTransport fed by the real _stream_events formatter, under three chunkings; plus a "
+    "byte-offset sweep cutting the body after every byte; every trace is validated by TraceSseClient and judged by Obs_C17.",
+    "starlette Request/StreamingResponse faked, network = MockTransport (ReadError/ConnectError only); cursors beyond the log end "
+    "not generated.",
+    "TLA+ spec + TLC; fault-sequence replay from TLC's state graph on the real client; TLC trace validation + observer; byte-offset sweep", "5/C17")
+reg("C34", "model_checking",
+    "TLC enumerates version pairs (3-component releases, a/b/rc pre-releases) as a function table with declarative "
+    "ToSemver/ToPep440/Normalize/Less/Classify and checks round trips and the classification clause; each vector is "
+    "concretised (multi-digit number maps, seeded PEP 440 spellings) and run through the real pep440_to_semver, "
+    "semver_to_pep440 and detect_change_type; Obs_C34 judges the results.",
+    "3-component releases only; canonical semver inputs; spelling equivalence taken from `packaging`; pairs where only the "
+    "pre-release grows are only required to be not 'none'.",
+    TABLE_TECH, "5/C34")
+reg("C32", "model_checking",
+    "TLC enumerates display names as class strings (lower/upper/digit/other/hyphen/non-ASCII; all strings <=5 quick / <=6 "
+    "thorough plus long families around the 57/63 boundaries) x mode x suffix draw through DeployId.tla's pipeline and checks "
+    "DNS-1035 validity, derivation from the name's alphanumerics and the suffix rule; each name is concretised (incl. "
+    "Unicode look-alikes) and run through the real find_deployment_id under three seeds; Obs_C32 judges every returned id.",
+    "kubernetes absent: availability check stubbed (free / in use once); 'lowercase alphanumerics' = ascii [a-z0-9] of "
+    "name.lower().",
+    TABLE_TECH, "5/C32")
+reg("C27", "model_checking",
+    "REDUCED CLAIM (DESIGN.md 5/C27, 8): only the repository's own replay mechanism. TLC checks DurableReplay.tla (task "
+    "journal, record vs replay mode of wait_for_next_task, crash anywhere, orphan purge, adversarial completion order) -- "
+    "a recovered loop observes the recorded completion order. Crash/schedule sequences from TLC's graph are replayed on the "
+    "real InternalDBOSAdapter.wait_for_next_task + TaskJournal + SqliteJournalCrud with fabricated tasks on the virtual loop; "
+    "traces validated by TraceDurableReplay and judged by Obs_C27.",
+    "dbos and Postgres are not installed: 'same ticks / published events / result' rests on DBOS's guarantees (recorded step "
+    "outputs, messages and timestamps are returned on replay) taken as axioms; PostgresJournalCrud not executed; dbos is a "
+    "names-only stub with one fake value (function_id).",
+    "TLA+ spec + TLC; crash/schedule replay from TLC's graph on the real adapter+journal; TLC trace validation + observer", "5/C27")
+
+
+reg("C19", "model_checking",
+    "All operation sequences (<=3 quick, <=5 thorough, over keys a, b, \"0\", depth <=3, DictState and a typed parent/child "
+    "pair) are enumerated by TLC from a nested-dict TLA+ model (StateTree/StateStore.tla: get/set by dotted path, set_state "
+    "replace or parent merge, clear, edit_state, get_state snapshots and their mutation) and applied to the real "
+    "InMemoryStateStore and SqliteStateStore; every return value and a final probe are validated by TLC (Obs_C19), snapshot "
+    "isolation is judged on store dumps before/after a snapshot mutation; the two back ends are also compared with each other.",
+    "JSON-representable values only; exceptions compared as 'raised'; snapshot handles are mutated only while no store write "
+    "happened since get_state (nested aliasing of the documented shallow copy is outside the statement); SQLite connections "
+    "run with synchronous=OFF in the harness.",
+    "TLA+ model enumerated by TLC; history replay on both real stores; TLC observer attributing each failure to one deviation", "5/C19")
+reg("C20", "model_checking",
+    "All interleavings (lock waits, awaits inside edit_state) of 2-3 tasks x <=2 operations are model-checked on "
+    "StateStoreConc.tla for the memory store, SQLite as designed and SQLite as coded (final state in the set of serial "
+    "results; an edit's commit equals its effect on the store just before); all driver command orders are executed on the "
+    "real stores under the virtual loop with tasks gated inside edit_state; TLC validates every execution "
+    "(TraceStateStoreConc) and judges serialisability / no-overwrite (Obs_C20).",
+    "2-3 tasks, <=2 operations each; thorough runs the real stores on a sample of the widest instances (TLC checks them "
+    "exhaustively); asyncio.Lock semantics of CPython 3.12.",
+    SCHED_TECH, "5/C20")
+
+
 def build():
     props = [json.loads(l) for l in (ROOT / "properties.jsonl").read_text().splitlines() if l.strip()]
     checks, na = [], []
